@@ -148,6 +148,7 @@ func c01(r *core.Run) {
 		c06MatchAssembly(r, "F3", root, ro)
 		c06Units(r, "F4", root, ro, true)
 		c06PureLookup(r, "F5")
+		c06DefaultGroupOnlyWithoutGroup(r, "F4", ro)
 	}
 	c01GroupArg(r, "F2", a, root)
 }
